@@ -1,1 +1,31 @@
-// harnesses for module m_quit (included into /repo under cfg(kani))
+// C01: -quit sets the quit flag, is true, and does not count as an action.
+use super::*;
+use crate::find::matchers::entry::verif_kani::{fmt_stub, Deps};
+use crate::find::matchers::Follow;
+
+// @harness props=C01 tier=quick cost=5
+// @exec QuitMatcher::{matches,has_side_effects}, MatcherIO::{quit,should_quit}
+// @sym none (the matcher has no inputs); previous quit state symbolic
+// @bounds single call
+#[kani::proof]
+#[kani::unwind(3)]
+#[kani::stub(alloc::fmt::format, fmt_stub)]
+fn c01_quit_primary() {
+    let deps = Deps::new();
+    let mut io = MatcherIO::new(&deps);
+    let before: bool = kani::any();
+    if before { io.quit(); }
+    let entry = WalkEntry::new("a", 0, Follow::Never);
+    assert!(QuitMatcher.matches(&entry, &mut io));
+    assert!(io.should_quit());
+    assert!(!QuitMatcher.has_side_effects());
+    assert!(io.exit_code() == 0 && !io.should_skip_current_dir());
+    kani::cover!(before); kani::cover!(!before);
+    std::mem::forget(entry);
+}
+#[kani::proof]
+#[kani::unwind(3)]
+#[kani::stub(alloc::fmt::format, fmt_stub)]
+fn c01_quit_primary_canary() {
+    assert!(QuitMatcher.has_side_effects()); // "-quit counts as an action": must FAIL
+}
